@@ -336,3 +336,18 @@ func dbgBind(c *Ctx, r *Report) {
 	fmt.Println("undecided", m.Undecided)
 	r.rule("dbg", 0, "debug")
 }
+
+func init() { register("DBGDIS", "other", dbgDis) }
+
+func dbgDis(c *Ctx, r *Report) {
+	m, err := c.disModel()
+	if err != nil {
+		fmt.Println("ERR", err)
+		return
+	}
+	for name, a := range m.Arms {
+		fmt.Printf("%s ok=%v shape=%q why=%s\n", name, a.OK, a.Shape, a.Why)
+	}
+	fmt.Println("undecided", m.Undecided)
+	r.rule("dbg", 0, "debug")
+}
